@@ -130,10 +130,18 @@ pub fn func_name(f: Func) -> &'static str {
     }
 }
 
-#[derive(Clone)]
 pub struct Leaf<D: Dom> {
     pub node: Node,
     pub at: Option<D::V>,
+}
+
+impl<D: Dom> Clone for Leaf<D> {
+    fn clone(&self) -> Self {
+        Leaf {
+            node: self.node.clone(),
+            at: self.at.clone(),
+        }
+    }
 }
 
 impl<D: Dom> Leaf<D> {
